@@ -72,7 +72,7 @@ func cliNames(h string) []string {
 }
 
 func paths() []string {
-	out := []string{"/dns-query", "/dns-query/", "/", "", "/other/id", "/dns-queryx/id", "/dns-query/../id", "/dns-query/./id", "//dns-query//id", "/dns-query/id/x", "/dns-query/id/x/..", "/x/../dns-query/id", "/DNS-QUERY/id", "/dns-query/id/../../dns-query/other"}
+	out := []string{"/dns-query", "/dns-query/", "/", "", "/other/id", "/dns-queryx/id", "/dns-queryid", "/dns-queryID/", "//dns-query1", "/x/../dns-queryid/.", "/dns-query-id", "/dns-query/../id", "/dns-query/./id", "//dns-query//id", "/dns-query/id/x", "/dns-query/id/x/..", "/x/../dns-query/id", "/DNS-QUERY/id", "/dns-query/id/../../dns-query/other"}
 	for _, l := range labels() {
 		out = append(out, "/dns-query/"+l, "/dns-query/"+l+"/")
 	}
@@ -398,7 +398,7 @@ func main() {
 				"max_depth":           m.Maxes["max_depth"],
 				"distinct_nontrivial": m.Distinct["nontrivial"],
 				"distinct_outcomes":   m.Distinct["outcomes"],
-				"rule":                "6 protocols x 3 configured server names x strict on/off x ~95 client server names generated from 17 labels (valid, upper case, underscore, leading/trailing hyphen, 63/64 chars, non-ASCII incl. Kelvin sign) in 5 positions + equal/sibling/look-alike/suffix/deeper/empty forms; for DoH additionally x 48 paths x (TLS state | Host header with/without port). non-trivial = inputs with something in the ClientID position (path segment after /dns-query or one label in front of the server name). Phase 2 (histories): every sequence up to depth 5 of 9 operations (thorough: depth 5 of 12 operations and depth 6 of the 9), one of them a request on a connection still served by the proxy instance of before the last reconfiguration — requests over udp/tcp/dnscrypt/tls/https/quic with and without a ClientID and with two DNS message IDs, and Server.Reconfigure — on a fresh real server (contexts created by the current proxy as its listeners do); after each request the ClientID it was processed and logged under must be the one its own server name / path carries",
+				"rule":                "6 protocols x 3 configured server names x strict on/off x ~95 client server names generated from 17 labels (valid, upper case, underscore, leading/trailing hyphen, 63/64 chars, non-ASCII incl. Kelvin sign) in 5 positions + equal/sibling/look-alike/suffix/deeper/empty forms; for DoH additionally x 53 paths x (TLS state | Host header with/without port). non-trivial = inputs with something in the ClientID position (path segment after /dns-query or one label in front of the server name). Phase 2 (histories): every sequence up to depth 5 of 9 operations (thorough: depth 5 of 12 operations and depth 6 of the 9), one of them a request on a connection still served by the proxy instance of before the last reconfiguration — requests over udp/tcp/dnscrypt/tls/https/quic with and without a ClientID and with two DNS message IDs, and Server.Reconfigure — on a fresh real server (contexts created by the current proxy as its listeners do); after each request the ClientID it was processed and logged under must be the one its own server name / path carries",
 			}
 		},
 		Assumptions: []string{"path.Clean defines path normalisation; RFC 1123 label syntax defines a valid label", "case differences in the domain part and the empty server name under strict checking are accepted either way (statement silent)"},
